@@ -430,10 +430,17 @@ func c13writers(c *Ctx) {
 
 func c13bufferedFaulty(c *Ctx) {
 	g, f := c.G, c.F
+	shortNil := false
 	sink := zsim.NewSimSink(c.R, "dev", 1, 1)
+	sink.MustProgress = true
 	for i := 0; i < 8; i++ {
 		var o zsim.Outcome
-		switch f.Weighted(5, 2, 2, 1) {
+		switch f.Weighted(5, 2, 2, 1, 3) {
+		case 4:
+			// takes only part of the bytes and says so, without an error (the
+			// writer above must cope: retry the rest or report the short write)
+			o.Short = 1 + f.Draw(6)
+			shortNil = true
 		case 1:
 			o.Short, o.Err = -1, fmt.Errorf("injected write error #%d", i)
 		case 2:
@@ -493,7 +500,7 @@ func c13bufferedFaulty(c *Ctx) {
 	for k, v := range sink.Fired {
 		c.Faults[k] += v
 	}
-	c.Describe("member=buffered-faulty size=%d ops=%s faults=%v", size, strings.Join(desc, " "), sink.Fired)
+	c.Describe("member=buffered-faulty size=%d short-count-without-error-sink=%v ops=%s faults=%v", size, shortNil, strings.Join(desc, " "), sink.Fired)
 	c.MixState(uint64(len(sink.Data))<<16 | uint64(len(stream)))
 	c.Nontrivial = len(sink.Fired) > 0
 }
